@@ -155,6 +155,8 @@ class OutgoingBallsHandler(BallDeviceStateHandler):
             await self._handle_eject_success(eject_request)
             incoming_skipping_ball.ball_arrived()
             if add_ball_to_target:
+                # the ball was booked for this device: move the booking to the target
+                self.ball_device.available_balls -= 1
                 target.available_balls += 1
             return True
 
